@@ -3,6 +3,7 @@ import ComposeVerif.Lemmas.C02StageWalk
 import ComposeVerif.Lemmas.C02StageDefaults
 import ComposeVerif.Lemmas.C02StageInterp
 import ComposeVerif.Lemmas.C02StagePaths
+import ComposeVerif.Lemmas.C02StageValidate
 /-!
 # C02 — `stage_perm`: the loader stages do not depend on the order in which Go ranges over mappings
 
@@ -111,6 +112,20 @@ theorem resolvePaths_stage_perm (t : CV.Paths.Table) (cfg : CV.Paths.Cfg) (p : T
 theorem resolve_stage_perm (cfg : CV.Paths.Cfg) {v w : Val} (h : CV.Deep.Eqv v w) (wv : CV.Deep.WF v) (ww : CV.Deep.WF w) :
     PRel CV.Deep.Eqv (CV.Paths.resolve cfg v) (CV.Paths.resolve cfg w) := walk_eqv _ cfg _ h wv ww
 
+/-- **`validation.Validate` as a whole tree walk** (C10's model `CV.Validate.validate`: the `check` walk with its six
+rows and four checkers): trees equivalent up to the order of mapping entries at any depth are accepted or rejected alike.
+*Which* error a rejected tree gets depends on the order (`Neg.Env.validate_which_error_order_dependent`) -/
+theorem validate_stage_perm {v w : Val} (h : CV.Deep.Eqv v w) (wv : CV.Deep.WF v) (ww : CV.Deep.WF w) :
+    (CV.Validate.validate v = .ok) ↔ (CV.Validate.validate w = .ok) := validate_eqv h wv ww
+
+/-- every checker of the `checks` table decides equivalent nodes alike (the `m[k]` / `len` / key-loop accesses) -/
+theorem validate_checker_perm (c : CV.Validate.Checker) {v w : Val} (h : CV.Deep.Eqv v w) :
+    CV.Validate.run c v = CV.Validate.run c w := run_eqv c h
+
+/-- `Validate` returns no error exactly when the walk finds no failing node (the error is the first one met) -/
+theorem validate_ok_iff_no_failure (t : Val) : CV.Validate.validate t = .ok ↔ CV.Validate.validTreeB t = true :=
+  validate_ok_iff t
+
 /-- the walker loop for recursive calls that respect the equivalence (the core of the whole-tree theorems) -/
 theorem walker_loop_deep (g g' : String → Val → Option Val) {a b : KVs} (hm : CV.Deep.MEqv a b)
     (wa : CV.Deep.MWF a) (wb : CV.Deep.MWF b)
@@ -129,5 +144,11 @@ example : TopPerm [("services", .map [("b", .null), ("a", .null)]), ("name", .st
   refine ⟨?_, .inr ⟨_, _, rfl, rfl, List.Perm.swap _ _ _⟩⟩
   intro k hk
   simp only [lookup, hk, if_false]
+
+/-- `validate_stage_perm` on two declaration orders of an invalid and of a valid tree -/
+example : CV.Validate.validate (.map [("volumes", .map [("v", .int 5)]), ("configs", .map [("c", .map [])])]) ≠ .ok ∧
+    CV.Validate.validate (.map [("configs", .map [("c", .map [])]), ("volumes", .map [("v", .int 5)])]) ≠ .ok ∧
+    CV.Validate.validate (.map [("volumes", .map [("v", .null)]), ("configs", .map [("c", .map [("file", .str "f")])])]) = .ok := by
+  decide
 
 end CV.Det.Stage.Props
